@@ -144,7 +144,14 @@ func c09AnsToken(rrs []dnsmessage.RR) int {
 	if len(rrs) == 0 {
 		return 0
 	}
-	switch r := rrs[0].(type) {
+	first := rrs[0]
+	for _, rr := range rrs { // a CNAME chain in front of the records asked for is not the payload
+		if _, ok := rr.(*dnsmessage.CNAME); !ok {
+			first = rr
+			break
+		}
+	}
+	switch r := first.(type) {
 	case *dnsmessage.A:
 		ip := r.A.To4()
 		return int(ip[2])<<8 | int(ip[3])
@@ -665,6 +672,7 @@ type c09Att struct {
 	ans     int
 	ttl0    bool // the answer record has TTL 0 (stored, but expired at the very next lookup)
 	many    int  // number of answer records (0 = one): 90 A records pack to more than 1024 bytes
+	cname   bool // the answer section starts with a CNAME record (the usual shape of an answer to an A question)
 }
 
 func (a c09Att) tok() string {
@@ -679,6 +687,7 @@ func (a c09Att) tok() string {
 }
 
 type c09Call struct {
+	dead    bool // the exchange was started with a context that had already ended
 	l4      consts.L4ProtoStr
 	data    []byte
 	release chan c09Att
@@ -703,7 +712,7 @@ func (f *c09ScriptFwd) ForwardDNS(ctx context.Context, data []byte) (*dnsmessage
 	}
 	f.inFlight.Add(1)
 	defer f.inFlight.Add(-1)
-	call := &c09Call{l4: f.l4, data: append([]byte(nil), data...), release: make(chan c09Att, 1)}
+	call := &c09Call{l4: f.l4, data: append([]byte(nil), data...), release: make(chan c09Att, 1), dead: ctx.Err() != nil}
 	f.w.mu.Lock()
 	f.w.calls = append(f.w.calls, call)
 	ch := f.w.callCh
@@ -712,6 +721,11 @@ func (f *c09ScriptFwd) ForwardDNS(ctx context.Context, data []byte) (*dnsmessage
 		ch <- call
 	}
 	a := <-call.release
+	if call.dead {
+		// entered with a context that is already over (e.g. the TCP fallback after the flight's 5 s ran out on the
+		// UDP leg): a transport fails such an exchange; the harness records the attempt as `fail`
+		return nil, ctx.Err()
+	}
 	if a.timeout {
 		<-ctx.Done()
 		return nil, ctx.Err()
@@ -742,6 +756,14 @@ func (f *c09ScriptFwd) ForwardDNS(ctx context.Context, data []byte) (*dnsmessage
 			m.Answer[0].Header().Class = uint16(cls)
 			if a.ttl0 {
 				m.Answer[0].Header().Ttl = 0
+			}
+			if a.cname {
+				alias := "alias." + dnsmessage.CanonicalName(name)
+				m.Answer = []dnsmessage.RR{
+					&dnsmessage.CNAME{Hdr: dnsmessage.RR_Header{Name: dnsmessage.CanonicalName(name), Rrtype: dnsmessage.TypeCNAME, Class: uint16(cls), Ttl: 3600}, Target: alias},
+					c09AnswerRR(alias, uint16(qt), a.ans),
+				}
+				m.Answer[1].Header().Class = uint16(cls)
 			}
 			for k := 1; k < a.many; k++ {
 				m.Answer = append(m.Answer, c09AnswerRR(dnsmessage.CanonicalName(name), uint16(qt), a.ans+k))
@@ -1078,7 +1100,11 @@ func c09GenAtt(r *VRand, c *c09Client, stat *VStats, pool []int, optimistic bool
 		a.resp = false
 		stat.Inc("ctl.att.qr-clear")
 	}
-	if !optimistic && a.ans != 0 && a.rcode == 0 && r.Chance(0.1) {
+	if a.ans != 0 && !a.ttl0 && r.Chance(0.12) {
+		a.cname = true
+		stat.Inc("ctl.att.cname-first")
+	}
+	if !optimistic && a.ans != 0 && a.rcode == 0 && !a.cname && r.Chance(0.1) {
 		a.ttl0 = true
 		stat.Inc("ctl.att.ttl0")
 	}
@@ -1127,6 +1153,20 @@ func c09RunCtlScenario(r *VRand, st *VStream, stat *VStats, routing *componentdn
 		}
 		stat.Inc("ctl.scenario.coalesce-uncached")
 	}
+	// TTL drift: one question, spelt differently by every client, asked again 20 s (virtual) after it was cached:
+	// the hit re-packs the entry with the spelling of the request at hand (`respell` in the model)
+	drift := !optimistic && !coalesce && r.Chance(0.05)
+	if drift {
+		mixRoutes = false
+		if route == "r" {
+			route = "a"
+		}
+		if nc < 3 {
+			nc = 3
+		}
+		stat.Inc("ctl.scenario.ttl-drift")
+	}
+	driftNext := false
 	var toks []string
 	for i := 0; i < nc; i++ {
 		c := &c09Client{id: ids[r.Intn(2)], n: names[r.Intn(2)], sp: r.Intn(8), qtype: qtypes[[]int{0, 0, 0, 1}[r.Intn(4)]], route: route, dst: 0, cls: []int{1, 1, 1, 1, 1, 1, 1, 3, 3, 255}[r.Intn(10)],
@@ -1146,6 +1186,9 @@ func c09RunCtlScenario(r *VRand, st *VStream, stat *VStats, routing *componentdn
 			if i > 0 && r.Chance(0.85) {
 				c.cls = w.clients[0].cls // mostly the same class too; a few of another class must NOT be coalesced
 			}
+		}
+		if drift {
+			c.n, c.qtype, c.route, c.dst, c.cls, c.sp = names[0], qtypes[0], route, 0, 1, 1+i%7
 		}
 		stat.Inc(fmt.Sprintf("ctl.client.class%d", c.cls))
 		w.clients = append(w.clients, c)
@@ -1184,7 +1227,7 @@ func c09RunCtlScenario(r *VRand, st *VStream, stat *VStats, routing *componentdn
 				running = append(running, f)
 			}
 		}
-		doArrive := arrived < nc && (len(running) == 0 || r.Chance(0.6) || coalesce && r.Chance(0.9))
+		doArrive := arrived < nc && !driftNext && (len(running) == 0 || !drift && r.Chance(0.6) || coalesce && r.Chance(0.9))
 		switch {
 		case doArrive:
 			c := w.clients[arrived]
@@ -1251,6 +1294,11 @@ func c09RunCtlScenario(r *VRand, st *VStream, stat *VStats, routing *componentdn
 				stat.Inc("ctl.arrive.follower")
 			}
 			emit(fmt.Sprintf("C join %d", idx), "", c, pc)
+		case driftNext && arrived < nc:
+			driftNext = false
+			time.Sleep(20 * time.Second) // more than the 15 s re-pack threshold; not an event of the model
+			w.settle(r)
+			stat.Inc("ctl.op.ttl-drift")
 		case optimistic && arrived > 0 && arrived < nc && w.cacheStr() != "-" && (ageNext || r.Chance(0.3)):
 			ageNext = false
 			// every cached answer becomes stale (2 h of virtual time); not an event of the model
@@ -1277,6 +1325,9 @@ func c09RunCtlScenario(r *VRand, st *VStream, stat *VStats, routing *componentdn
 				w.mu.Lock()
 				call2 := w.calls[len(w.calls)-1]
 				w.mu.Unlock()
+				if call2.dead {
+					a2 = c09Att{fail: true}
+				}
 				call2.release <- a2
 				if a2.timeout {
 					time.Sleep(consts.DefaultDialTimeout + time.Second)
@@ -1300,12 +1351,26 @@ func c09RunCtlScenario(r *VRand, st *VStream, stat *VStats, routing *componentdn
 			// watch what happens to them (closed under an exchange / used after close / closed twice).
 			switch r.Intn(3) {
 			case 0:
+				// (keys sorted: the seed, not the map order, decides which forwarders are retired)
+				type kv struct {
+					k dnsForwarderKey
+					e *cachedDnsForwarder
+				}
+				var kvs []kv
 				w.ctrl.dnsForwarderCache.Range(func(k, v any) bool {
-					if e, ok := v.(*cachedDnsForwarder); ok && r.Chance(0.7) {
-						w.ctrl.retireCachedDnsForwarder(k.(dnsForwarderKey), e)
+					if e, ok := v.(*cachedDnsForwarder); ok {
+						kvs = append(kvs, kv{k.(dnsForwarderKey), e})
 					}
 					return true
 				})
+				sort.Slice(kvs, func(i, j int) bool {
+					return fmt.Sprint(kvs[i].k) < fmt.Sprint(kvs[j].k)
+				})
+				for _, x := range kvs {
+					if r.Chance(0.7) {
+						w.ctrl.retireCachedDnsForwarder(x.k, x.e)
+					}
+				}
 				stat.Inc("ctl.fwdlife.retire-while-blocked")
 			case 1:
 				w.ctrl.dnsForwarderCache.Range(func(k, v any) bool {
@@ -1362,6 +1427,11 @@ func c09RunCtlScenario(r *VRand, st *VStream, stat *VStats, routing *componentdn
 				}
 				stat.Inc(fmt.Sprintf("ctl.coalesce.uncached.rcode%d", a1.rcode))
 			}
+			if drift && fi == 0 {
+				l := f.leader
+				a1 = c09Att{id: l.id, q: c09QStr(c09NameTok(l.n, l.route), l.sp, l.qtype, l.cls), resp: true, ans: 1 + r.Intn(900)}
+				driftNext = true
+			}
 			if optimistic && fi == 0 && r.Chance(0.8) {
 				// a well-behaved first answer, so that there is something to go stale
 				l := f.leader
@@ -1383,6 +1453,9 @@ func c09RunCtlScenario(r *VRand, st *VStream, stat *VStats, routing *componentdn
 				w.mu.Lock()
 				call2 := w.calls[len(w.calls)-1]
 				w.mu.Unlock()
+				if call2.dead {
+					a2 = c09Att{fail: true}
+				}
 				call2.release <- a2
 				if a2.timeout {
 					time.Sleep(consts.DefaultDialTimeout + time.Second)
@@ -1436,7 +1509,11 @@ func c09RunCtlScenario(r *VRand, st *VStream, stat *VStats, routing *componentdn
 			stat.Inc("ctl.client.answered")
 		}
 	}
-	// lifecycle of every forwarder the controller created in this scenario (all exchanges are over)
+	w.checkFwdLife(st, stat, "scenario")
+}
+
+// checkFwdLife: lifecycle of every forwarder the controller created in this world (all exchanges are over).
+func (w *c09CtlWorld) checkFwdLife(st *VStream, stat *VStats, label string) {
 	cached := map[DnsForwarder]bool{}
 	w.ctrl.dnsForwarderCache.Range(func(_, v any) bool {
 		if e, ok := v.(*cachedDnsForwarder); ok {
@@ -1460,7 +1537,7 @@ func c09RunCtlScenario(r *VRand, st *VStream, stat *VStats, routing *componentdn
 			bad = "dropped from the forwarder cache and idle, but never closed"
 		}
 		if bad != "" {
-			st.Emit(fmt.Sprintf("C fwdlife forwarder %d of %d (%s): %s", i, len(fwds), f.l4, strings.ReplaceAll(bad, " ", "_")), "violated")
+			st.Emit(fmt.Sprintf("C fwdlife %s: forwarder %d of %d (%s): %s", label, i, len(fwds), f.l4, strings.ReplaceAll(bad, " ", "_")), "violated")
 		}
 		stat.Inc("ctl.fwdlife.forwarders-checked")
 		if f.closes.Load() == 1 {
@@ -1513,7 +1590,91 @@ func TestVerifC09Ctl(t *testing.T) {
 		stat.Inc("ctl.errreply." + kind)
 	}
 	c09UdpPath(r, st, stat, routing)
+	c09CreationRace(r, st, stat, routing)
 	stat.Write("c09ctl")
+}
+
+// c09CreationRace: k goroutines meet a cold forwarder-cache key inside getOrCreateDnsForwarder (the factory is held
+// until all of them are in it), so one LoadOrStore wins and the others take the "another goroutine won the race"
+// branch; every one of them then runs its exchange through the real forwardWithDialArg.  The fake forwarders
+// watch their own lifecycle (closed under an exchange / used after Close / closed twice / leaked).  Real time,
+// channel synchronisation only; a round whose goroutines are not scheduled within the budget is skipped.
+func c09CreationRace(r *VRand, st *VStream, stat *VStats, routing *componentdns.Dns) {
+	rounds := 40
+	if VThorough() {
+		rounds = 400
+	}
+	oldFactory := dnsForwarderFactory
+	defer func() { dnsForwarderFactory = oldFactory }()
+	for round := 0; round < rounds; round++ {
+		w := newC09CtlWorld(st, stat, routing, false)
+		callCh := make(chan *c09Call, 64)
+		w.callCh = callCh
+		k := 2 + r.Intn(3)
+		entered, goCh := make(chan struct{}, k), make(chan struct{})
+		dnsForwarderFactory = func(up *componentdns.Upstream, da dialArgument, _ *logrus.Logger) (DnsForwarder, error) {
+			f := &c09ScriptFwd{w: w, l4: da.l4proto}
+			w.mu.Lock()
+			w.fwds = append(w.fwds, f)
+			w.mu.Unlock()
+			entered <- struct{}{}
+			<-goCh
+			return f, nil
+		}
+		up := &componentdns.Upstream{Scheme: componentdns.UpstreamScheme_UDP, Hostname: "10.9.9.9", Port: 53}
+		da := &dialArgument{l4proto: consts.L4ProtoStr_UDP, ipversion: consts.IpVersionStr_4, bestTarget: netip.MustParseAddrPort("10.9.9.9:53")}
+		q := new(dnsmessage.Msg)
+		q.SetQuestion("race.test.", dnsmessage.TypeA)
+		data, _ := q.Pack()
+		done := make(chan error, k)
+		for i := 0; i < k; i++ {
+			go func() {
+				_, err := w.ctrl.forwardWithDialArg(context.Background(), up, da, data)
+				done <- err
+			}()
+		}
+		ok := true
+		wait := func(ch <-chan struct{}) bool {
+			select {
+			case <-ch:
+				return true
+			case <-time.After(c09RealBudget):
+				return false
+			}
+		}
+		for i := 0; i < k && ok; i++ {
+			ok = wait(entered)
+		}
+		close(goCh) // all k are past the cache miss and hold a forwarder of their own: let LoadOrStore decide
+		var calls []*c09Call
+		for i := 0; i < k && ok; i++ {
+			select {
+			case c := <-callCh:
+				calls = append(calls, c)
+			case <-time.After(c09RealBudget):
+				ok = false
+			}
+		}
+		for _, c := range calls { // every exchange is now in flight: answer them
+			c.release <- c09Att{id: 1, q: "-", resp: true}
+		}
+		for i := 0; i < k && ok; i++ {
+			select {
+			case <-done:
+			case <-time.After(c09RealBudget):
+				ok = false
+			}
+		}
+		if !ok {
+			stat.Inc("ctl.fwdlife.creation-race.abandoned")
+			go func() { _ = w.ctrl.Close() }()
+			continue
+		}
+		_ = w.ctrl.ResetDnsForwarders() // retire what is cached: now every forwarder created must have been closed, once
+		w.checkFwdLife(st, stat, fmt.Sprintf("creation-race round %d, %d goroutines", round, k))
+		stat.Inc("ctl.fwdlife.creation-race.rounds-completed")
+		_ = w.ctrl.Close()
+	}
 }
 
 // c09RealBudget bounds the waits of the real-time (non-synctest) part on events the real code signals.
@@ -1523,7 +1684,7 @@ var c09RealBudget = c09BudgetFromEnv()
 // c09BudgetFromEnv: 90 s, or VERIF_C09_BUDGET_MS (only used to test that an expired budget is reported as
 // inconclusive and never as a violation).
 func c09BudgetFromEnv() time.Duration {
-	if ms := VEnvInt("VERIF_C09_BUDGET_MS", 0); ms > 0 {
+	if ms := VEnvInt("VERIF_C09_BUDGET_MS", 0); ms > 0 && os.Getenv("VERIF_C09_SELFTEST") == "1" {
 		return time.Duration(ms) * time.Millisecond
 	}
 	return 90 * time.Second
@@ -1614,7 +1775,7 @@ func c09UdpPath(r *VRand, st *VStream, stat *VStats, routing *componentdns.Dns) 
 		inconclusive := ""
 		var first *c09Call
 		for i := 0; i < k && inconclusive == ""; i++ {
-			c := &cl{conn: listen(), id: (1000*round + 37*i + 5) % 65536, sp: r.Intn(8), err: make(chan error, 1)}
+			c := &cl{conn: listen(), id: (1000*round + 37*i + 5 + 9973*attempt) % 65536, sp: r.Intn(8), err: make(chan error, 1)}
 			cls = append(cls, c)
 			q := new(dnsmessage.Msg)
 			q.SetQuestion(c09Name(n, c.sp, "a"), dnsmessage.TypeA)
@@ -1654,7 +1815,7 @@ func c09UdpPath(r *VRand, st *VStream, stat *VStats, routing *componentdns.Dns) 
 				select {
 				case <-c.err:
 				case <-time.After(c09RealBudget):
-					inconclusive = "Handle_ did not return within the budget"
+					inconclusive = fmt.Sprintf("Handle_ of waiter %d of %d did not return within the budget (%d had returned)", i, k, i)
 				}
 				if inconclusive != "" {
 					break
@@ -1675,8 +1836,11 @@ func c09UdpPath(r *VRand, st *VStream, stat *VStats, routing *componentdns.Dns) 
 				case got == "":
 					// no datagram: nothing was observed (loopback drop, error return) - not a statement about the reply
 					stat.Inc("ctl.udppath.no-datagram")
-				case got != want:
-					st.Emit(fmt.Sprintf("C udppath round=%d waiter=%d of %d uncached=%v want %s", round, i, k, uncached, want), got)
+				default:
+					stat.Inc("ctl.udppath.datagrams-checked")
+					if got != want {
+						st.Emit(fmt.Sprintf("C udppath round=%d waiter=%d of %d uncached=%v want %s", round, i, k, uncached, want), got)
+					}
 				}
 				stat.Inc(fmt.Sprintf("ctl.udppath.reply.uncached=%v", uncached))
 			}
@@ -1838,8 +2002,11 @@ func c09UdpPath(r *VRand, st *VStream, stat *VStats, routing *componentdns.Dns) 
 			switch {
 			case got == "":
 				stat.Inc("ctl.udppath.no-datagram")
-			case got != want:
-				st.Emit(fmt.Sprintf("C udppath oversized-cached round=%d waiter=%d of %d packed=%dB want %s", round, i, k, packed, want), got)
+			default:
+				stat.Inc("ctl.udppath.big.datagrams-checked")
+				if got != want {
+					st.Emit(fmt.Sprintf("C udppath oversized-cached round=%d waiter=%d of %d packed=%dB want %s", round, i, k, packed, want), got)
+				}
 			}
 			stat.Inc("ctl.udppath.big.reply")
 			c.conn.Close()
